@@ -941,6 +941,15 @@ func (m *Mon) stepC08(sc *StepCtx, si stepInfo) {
 		return
 	}
 	pre, post := sc.Pre, sc.Post
+	if mm, ok := sc.Msg.(*types.MsgRespondService); ok && sc.Res.Rejected {
+		// stateless validation may refuse a response for its own shape (result, output), never for
+		// the ID of a request that is pending: the ID was issued by the module itself
+		rid := hexs(mm.RequestId)
+		if r, known := pre.Requests[rid]; known && pre.ActiveID[rid] && bytes.Equal(r.Provider, mm.Provider) && strings.Contains(strings.ToLower(sc.Res.Err), "request id") {
+			m.eval("C08")
+			m.fail(sc, "C08", "admission", "rejected-valid:stateless-request-id", "response by the designated provider to a pending request (expiry %d, now %d) was refused by stateless validation because of its request ID: %s", r.ExpirationHeight, pre.Height, sc.Res.Err)
+		}
+	}
 	if mm, ok := sc.Msg.(*types.MsgRespondService); ok && !sc.Res.Rejected {
 		m.eval("C08")
 		rid := hexs(mm.RequestId)
